@@ -237,10 +237,12 @@ class FakePool:
 
     def imap(self, func, iterable, chunksize=1):
         FakePool.calls.append({"processes": self.processes, "chunksize": chunksize})
+        if chunksize < 1:          # multiprocessing.pool.Pool.imap does exactly this, before touching the iterable
+            raise ValueError("Chunksize must be 1+, not {0:n}".format(chunksize))
         items = list(iterable)
         out = []
-        for i in range(0, len(items), max(chunksize, 1)):
-            out.extend([func(x) for x in items[i:i + max(chunksize, 1)]])
+        for i in range(0, len(items), chunksize):
+            out.extend([func(x) for x in items[i:i + chunksize]])
         return iter(out)
 
     def close(self):
@@ -742,6 +744,12 @@ class C11(PropertyCheck):
             yield {"kind": "trn", "utts": utts, "chunk": rng.choice([1, 2, 1000]), "processes": rng.choice([1, 3]),
                    "warn": rng.random() < 0.3, "bare": rng.random() < 0.4,
                    "iterable": rng.choice(["list", "list", "gen", "tuple"])}
+        # chunk_size=0: ignored without workers, refused by Pool.imap (ValueError) with workers - also for an
+        # empty file and for a file whose first line is malformed (the pool refuses before any line is parsed)
+        for utts in ([], [{"utt": "u", "t": ["a", [["b"], ["c"]]]}, {"utt": "v", "t": []}],
+                     [{"utt": "u", "t": [[["a"], []]]}]):
+            yield {"kind": "trn", "utts": utts, "chunk": 0, "processes": rng.choice([1, 3]), "warn": False,
+                   "bare": False, "iterable": "list"}
         # every shape of a bare three-branch alternate (len(x) == 3 is what a timed token looks like)
         for b2 in ([], ["b"], ["b", "c"], [[["p"], ["q"]]]):
             for b3 in (["d"], ["d", "e"], [[["r"], [], ["s", "t"]]]):
@@ -1037,6 +1045,8 @@ class C11(PropertyCheck):
                 obs["pool"] = canon_trn(r)
             except OSError:
                 obs["pool"] = {"error": "OSError"}
+            except ValueError:
+                obs["pool"] = {"error": "ValueError"}
             obs["pool_calls"] = list(fp.calls)
         # read_trn_iter is the same thing, lazily
         try:
@@ -1051,6 +1061,8 @@ class C11(PropertyCheck):
                     == obs["pool"]
             except OSError:
                 obs["iter_pool_same"] = obs["pool"] == {"error": "OSError"}
+            except ValueError:
+                obs["iter_pool_same"] = obs["pool"] == {"error": "ValueError"}
         # the CRLF file, read in text mode and without newline translation
         rc = read_crlf(lambda f: canon_trn(d.read_trn(f, warn=False)), p_crlf)
         obs["read_crlf"] = {k: (v["ok"] if "ok" in v else {"error": v["error"]}) for k, v in rc.items()}
@@ -1340,7 +1352,7 @@ class C11(PropertyCheck):
                 elif case.get("warn") and impl.get("nwarn") != sum(1 for r in mr if r["found_alt"]):
                     out.append(f"warnings impl={impl.get('nwarn')} model={sum(1 for r in mr if r['found_alt'])}")
             mp = model["pool"]
-            mp = {"error": "OSError"} if isinstance(mp, dict) else [{"utt": r["utt"], "t": r["t"]} for r in mp]
+            mp = {"error": mp["error"]} if isinstance(mp, dict) else [{"utt": r["utt"], "t": r["t"]} for r in mp]
             if impl["pool"] != mp:
                 out.append(f"pool read impl={framework.short(impl['pool'])} model={framework.short(mp)}")
             mc = model["read_crlf_raw"]
@@ -1533,7 +1545,13 @@ class C11(PropertyCheck):
             if impl.get("read") != spec:
                 fails.append((f"trn round trip: wrote {framework.short(spec)} read {framework.short(impl.get('read'))}",
                               "C11.trn.roundtrip"))
-            if impl.get("pool") != impl.get("read"):
+            if case["chunk"] < 1:
+                # Pool.imap's contract: a chunk size below 1 is refused (C11_workers holds for chunk_size >= 1)
+                if impl.get("pool") != {"error": "ValueError"}:
+                    fails.append((f"trn: processes={case['processes']} chunk_size={case['chunk']} gives "
+                                  f"{framework.short(impl.get('pool'))}, expected the pool's ValueError",
+                                  "C11.trn.workers"))
+            elif impl.get("pool") != impl.get("read"):
                 fails.append((f"trn: processes={case['processes']} chunk_size={case['chunk']} gives "
                               f"{framework.short(impl.get('pool'))}, processes=0 {framework.short(impl.get('read'))}",
                               "C11.trn.workers"))
